@@ -666,7 +666,7 @@ def near_threshold(spec, tr):
             for j, (t, tu) in enumerate(zip(tr['time'], tr['time_units'])):
                 # every unit the instant has been expressed in: the one it was created in (the time step's), the one a
                 # load callback may have converted it to, the one it carries now
-                units = {tu, rl['start'][1], rl['dur'][1]}
+                units = {tu, rl['start'][1], rl['dur'][1], sim.late_unit(rl, 'start'), sim.late_unit(rl, 'dur')}
                 if j < len(own) and own[j] is not None:
                     units.add(spec['ops'][own[j]]['dt'][1])
                 if cb is not None:
@@ -1020,15 +1020,54 @@ def run_C11(ctx):
     # run, reset, run again on the same Solver object: the axis restarts at 0
     specs += [dynamics_spec(ctx.rng, ctx, kind='reset', same_solver=True) for _ in range(ctx.budget(12, 150))]
     eval_dynamics(ctx, specs, ['C11'])
+    # several Solver objects on one powertrain, used in turn: every run continues from the powertrain's last instant
+    for _ in range(ctx.budget(15, 300)):
+        eval_solvers(ctx, {'t': 'solvers', 'order': [rng.randrange(2) for _ in range(rng.randint(3, 5))],
+                           'runs': [(lambda dt, n, u: {'dt': [float(F(dt) / SI['TimeInterval'][u]), u], 'T': [float(F(dt * n) / SI['TimeInterval'][u]), u]})(
+                               2.0 ** -rng.randint(2, 5), rng.randint(2, 6), rng.choice(['sec', 'sec', 'ms'])) for _ in range(5)]})
     ctx.rule = ('decimal time steps m*10^-e (m <= 999, e <= 4) x step counts, T given as dt*n or as a decimal literal, '
                 'dt and T in any of the four time units (also created in one unit and converted in place to another), fresh and continued runs, through the real Solver.run with the '
                 'per-instant physics replaced by no-ops inside the harness process; plus complete simulations; '
                 'non-trivial = more than 2 instants recorded')
 
 
+def eval_solvers(ctx, c):
+    from gearpy.solver import Solver
+    spec = tiny_chain()
+    b = sim.build(spec)
+    solvers = [Solver(b.pt), Solver(b.pt)]
+    b.E[-1].angular_position = sim.Q('AngularPosition', spec['init']['pos'])
+    b.E[-1].angular_speed = sim.Q('AngularSpeed', spec['init']['speed'])
+    ops, recs, err = [], [], None
+    for k, r in zip(c['order'], c['runs']):
+        before = len(b.pt.time)
+        undo = sim.guard_run(b.pt, r['dt'], r['T'])
+        try:
+            solvers[k].run(time_discretization=sim.Q('TimeInterval', r['dt']), simulation_time=sim.Q('TimeInterval', r['T']))
+        except Exception as ex:  # noqa: BLE001
+            err = type(ex).__name__
+            break
+        finally:
+            undo()
+        ops.append({'op': 'run', 'dt': r['dt'], 'T': r['T'], 'stop': None})
+        recs.append({'op': 'run', 'n_before': before, 'n_after': len(b.pt.time), 'pwm_before': 1.0, 'locked_before': False})
+    t = [sim.qsi(x) for x in b.pt.time]
+    spec['ops'] = ops
+    tr = {'time': t, 'ops': recs, 'els': [{'angular position': t}], 'error': None}
+    ctx.case_done(c, nontrivial=len(t) > 4)
+    ctx.count('two solvers used in turn ' + ''.join('AB'[k] for k in c['order']))
+    if err is not None:
+        ctx.violation(c, {'why': f'run raised {err}'})
+        return
+    for msg, det in oracle_C11(spec, tr)[:1]:
+        ctx.violation(c, {'why': msg, **det})
+
+
 def replay_C11(ctx, case):
     prep()
-    if case.get('t') == 'axis':
+    if case.get('t') == 'solvers':
+        eval_solvers(ctx, case)
+    elif case.get('t') == 'axis':
         eval_axis(ctx, [case])
     else:
         eval_dynamics(ctx, [case['spec']], ['C11'])
